@@ -37,6 +37,23 @@ taken before the call.
                    /after-precision-32)
   D regimes        prescriptions of 5..8 surfaces, |k| up to 10, strongly curved (R 4..25) and nearly flat (R 1e4..1e6) surfaces
 
+Hardening pass 2 (HARDENING2.md).
+  E argument forms  rays as nested lists / tuples / mixed list+ndarray / F-ordered / read-only, P and S in every float32 / float64
+                   combination, one ray as (3,) / list of 3 / (1,3), batches of 2 and 3 (row i must be traced like row i of the
+                   full batch); surfaces as tuple / object ndarray; wvl and n_ambient as python / numpy scalars and 0-d arrays,
+                   keyword vs positional, n_ambient omitted after a trace in another medium; Surface constructors with typ in
+                   every accepted spelling / the STYPE integer, P as scalar / [z] / [y,z] / [x,y,z] in list / tuple / ndarray /
+                   numpy-scalar form, R as list vs tuple of angles, padded angles, make_rotation_matrix(angles), matrices in other
+                   memory layouts, positional vs keyword (see FORMS_NOTE for what is out of domain)
+    eval surfaces  one non-bending surface (plane / conic / off-axis conic; untilted, decentred, tilted by angles or matrix) first,
+                   in the middle or last in a refracting prescription: judged pass by pass, and the prescription must trace the
+                   other surfaces exactly as it does without the eval surface
+    mixed batches  1..20 hitting rays interleaved with 1..5 rays that start outside the sag domain / leave it during the iteration /
+                   run parallel to the vertex plane / arrive as NaN: each hitting ray equals its solo trace
+  F foreign traffic make_rotation_matrix results edited in place (and the matrix of another Surface built from the same angles),
+                   Q-polynomial sequences of other orders, the same routines under precision 32, polar grids edited in place; then
+                   a surface is built and traced and judged as usual
+
 Violation keys are `C19/<stage>/<clause>/<class labels>`; the class labels are computed from the failing rays
 (normal class: axial / sloped / unit; frame class; surface family; NaN class by geometric predicate).
 """
@@ -56,7 +73,12 @@ RULE = ('one case = one prescription (1-4 surfaces) + one ray bundle; surface fa
         'they geometrically hit; a case is non-trivial when at least one ray was decided by a law monitor; '
         'distinct = distinct descriptor (classes + parameters + sub-seed).  Hardening workloads: surface histories (13 kinds of '
         'change x 5 families, second trace aimed at the surface in its new frame), ray forms (6 forms x 5 families), '
-        'configuration (4 phases per prescription), regimes (long prescriptions, extreme curvature / conic constant)')
+        'configuration (4 phases per prescription), regimes (long prescriptions, extreme curvature / conic constant).  Argument forms '
+        '(hardening pass 2): per (family, interaction, frame) case ~60 forms of the rays (containers, dtype mixes, single ray vs '
+        'batches of 1, 2, 3), of the trace arguments (surfaces container, wvl, n_ambient, call syntax) and of the Surface constructor '
+        'arguments (typ spellings, P forms, R forms), plus single-vs-batch forms of intersect / reflect / refract / the frame '
+        'transforms; eval surfaces: 3 positions x 4 frames x 3 families; mixed batches: 5 families x 3 interactions x 1..20 hitting '
+        'and 1..5 untraceable rays; foreign traffic: 4 kinds x 5 families')
 ASSUMPTIONS = ['the surface is the graph z = sag(x,y) of the library\'s own sag routine in the surface frame; for plane / '
                'sphere / conic / off-axis conic that sag is additionally required to equal the textbook conic formula '
                'c s/(1+sqrt(1-(1+k)c^2 s)), s=(x+dx)^2+(y+dy)^2',
@@ -73,13 +95,21 @@ ASSUMPTIONS = ['the surface is the graph z = sag(x,y) of the library\'s own sag 
                'single precision (float32 rays, or any trace while config.precision is 32: surfaces then hold float32 P and R): '
                'thresholds 1e-3 (x scale) for positions, unit length and the laws, 1e-4 for frame transforms and stored '
                'rotations, measured round-off 8e-8..1e-6; a hit within 1e-5 x aperture of the local origin counts as the vertex '
-               'ray there']
+               'ray there',
+               'argument forms (FORMS_NOTE): a form is demanded only when the current tree traces it like the canonical form; P of '
+               'integer dtype is documented as unsupported; rows of a batch are independent rays (raytrace docstring), so a ray must be '
+               'traced alike alone, in a batch of any size and next to rays that cannot be traced; an eval surface changes neither '
+               'direction nor the rays the other surfaces receive; a float32 wavelength makes the index callable of the harness single precision (1e-3 for '
+               'that form only)',
+               'a matrix make_rotation_matrix returned (and the R a Surface stores) belongs to the caller: editing it in place must not '
+               'change Surfaces built later from the same angles']
 REQUIRED = ['hit.on-ray', 'hit.on-surface', 'out.unit-length', 'reflect.law', 'refract.snell', 'refract.coplanar',
             'refract.side', 'trace.finite', 'surface.sag-definition', 'rigid.to_local', 'rigid.to_global',
             'rigid.roundtrip', 'rigid.R-proper', 'direct.intersect', 'direct.reflect', 'direct.refract',
             'multi-surface.pass', 'history.vs-fresh-surface', 'repeat.same-rays', 'repeat.direct', 'repeat.shared-P',
             'precision32.cases', 'float32-rays.cases', 'precision32-then-64.cases', 'regime.long-prescription',
-            'regime.extreme-shape']
+            'regime.extreme-shape', 'form.rays', 'form.ray-dtypes', 'form.call-syntax', 'form.surface-args', 'form.direct', 'eval.pass',
+            'eval.unchanged', 'eval.transparent', 'batch.vs-solo', 'foreign.cases']
 
 CTX = None
 WVL = 0.6328
@@ -92,15 +122,16 @@ TOL_ORACLE = 1e-10  # oracle self-consistency (else excluded)
 TOL_RIGID = 1e-12   # x scale, frame transforms vs own algebra   (observed <= 2e-16 x scale)
 LONG_PATH = 32.0    # path from the local vertex plane to the hit beyond which ulp(s) approaches the default 100 eps
 TOL_RPROPER = 1e-13  # orthonormality / det of a stored rotation
+TOL_EVAL = 1e-13     # | S' - S | across a non-bending surface (R^T R S differs from S by round-off only)
 KEYSUF = ''          # class label appended to the contract keys by the configuration workloads
 
 VERTEX_TOL = 1e-12   # x aperture: a hit this close to the local origin is 'the ray through the vertex'
-TOL64 = dict(TOL_POS=1e-9, TOL_UNIT=1e-10, TOL_LAW=1e-9, TOL_INPUT=1e-13, TOL_RIGID=1e-12, TOL_RPROPER=1e-13, VERTEX_TOL=1e-12)
+TOL64 = dict(TOL_POS=1e-9, TOL_UNIT=1e-10, TOL_LAW=1e-9, TOL_INPUT=1e-13, TOL_RIGID=1e-12, TOL_RPROPER=1e-13, VERTEX_TOL=1e-12, TOL_EVAL=1e-13)
 # single precision (float32 rays, or anything while prysm.conf.config.precision is 32: surfaces then store P and R as float32):
 # measured over 300 prescriptions x 64 rays: on-ray 8e-8 x scale, on-surface 1e-6 x scale, | |S'|-1 | 3e-7, laws 3e-7,
 # frame transforms 1e-7 x scale, stored rotation orthonormal to 1e-7; thresholds 3 decades above
 # (a float32 ray aimed at the vertex lands 1e-7..1e-6 from it: VERTEX_TOL 1e-5 keeps the mechanism label of the r=0 singularity)
-TOL32 = dict(TOL_POS=1e-3, TOL_UNIT=1e-3, TOL_LAW=1e-3, TOL_INPUT=1e-5, TOL_RIGID=1e-4, TOL_RPROPER=1e-4, VERTEX_TOL=1e-5)
+TOL32 = dict(TOL_POS=1e-3, TOL_UNIT=1e-3, TOL_LAW=1e-3, TOL_INPUT=1e-5, TOL_RIGID=1e-4, TOL_RPROPER=1e-4, VERTEX_TOL=1e-5, TOL_EVAL=1e-4)
 
 
 class tolerances:
@@ -643,7 +674,7 @@ def check_pass(ctx, spec, Pin, Sin, Pout, Sout, n1, desc, stage='raytrace', j=0)
             side = np.where(rp.dot(Slo, nrm) * cosi > 0, 0.0, 1.0)
         report('refract.side', side, 0.5, 'refract', 'wrong-side', 'refracted ray leaves on the incident side of the surface')
     else:
-        report('eval.unchanged', rp.norm(Sout - Sin), 1e-13, 'eval', 'direction-changed', 'an eval surface changed the ray direction')
+        report('eval.unchanged', rp.norm(Sout - Sin), TOL_EVAL, 'eval', 'direction-changed', 'an eval surface changed the ray direction')
     return int(live.sum())
 
 
@@ -1436,6 +1467,530 @@ def precision_case(ctx, idx, family, way, form):
         ctx.case(desc, nontrivial=bool(r1 and r1[4]))
 
 
+# ================================================================================================ class E: argument forms
+FORMS_NOTE = ('accepted forms established by running the current tree (/repo @ faa8443): raytrace takes P, S as float ndarrays, '
+              'nested lists / tuples of floats, any mix of float32 / float64 (the histories have the dtype of P: single-precision '
+              'thresholds when P is float32), a single (3,) ray or an (N,3) batch, surfaces as list / tuple / object ndarray (a '
+              'generator raises), wvl and n_ambient as python int / float, numpy scalars or 0-d arrays; Surface constructors take typ '
+              'as refl / reflect / refr / refract / eval in any case or the STYPE integer (a numpy integer raises), P as scalar z / '
+              '[z] / [y, z] / [x, y, z] in list / tuple / ndarray form or a numpy scalar (a 0-d array raises), R as None / list or '
+              'tuple of 1..3 angles / 3x3 ndarray (a nested list raises, an ndarray of angles is stored as if it were a matrix: out '
+              'of domain), n as a callable (a number is not callable: raises at trace time, out of domain).  Integer-typed P is '
+              'documented as unsupported ("any float dtype") and truncates today: out of domain')
+RAY_CONTAINER_FORMS = ['list', 'tuple-of-rows', 'P-list+S-ndarray', 'P-ndarray+S-list', 'F-order', 'read-only']
+RAY_DTYPE_FORMS = ['P-float32+S-float64', 'P-float64+S-float32', 'P-float32+S-float32']
+WVL_FORMS = ['numpy-float64', '0d-float64', 'numpy-float32']
+TYP_FORMS = {'refl': ['refl', 'reflect', 'REFL', 'Reflect', 'stype-int'], 'refr': ['refr', 'refract', 'REFR', 'Refract', 'stype-int'],
+             'eval': ['eval', 'EVAL', 'Eval', 'stype-int']}
+
+
+def _build_variant(spec, typ=None, P=None, R='same', positional=False):
+    """A fresh real Surface like `spec` with one constructor argument given in another form."""
+    from prysm.x.raytracing import surfaces as sf
+    from prysm.x.raytracing.surfaces import Surface
+    p = spec.par
+    if typ is None:
+        typ = spec.typ
+    elif typ == 'stype-int':
+        typ = {'refl': sf.STYPE_REFLECT, 'refr': sf.STYPE_REFRACT, 'eval': sf.STYPE_EVAL}[spec.typ]
+    n = _index_fn(spec.n_after, spec.wvl) if spec.typ == 'refr' else None
+    P = spec.P_arg if P is None else P
+    R = spec.R_arg if isinstance(R, str) else R
+    if spec.family == 'plane':
+        return Surface.plane(typ, P, n, R) if positional else Surface.plane(typ=typ, P=P, n=n, R=R)
+    if spec.family == 'conic':
+        if p.get('ctor') == 'sphere':
+            return Surface.sphere(p['c'], typ, P, n, R) if positional else Surface.sphere(c=p['c'], typ=typ, P=P, n=n, R=R)
+        return Surface.conic(p['c'], p['k'], typ, P, n, R) if positional else Surface.conic(c=p['c'], k=p['k'], typ=typ, P=P, n=n, R=R)
+    if spec.family == 'off-axis-conic':
+        if positional:
+            return Surface.off_axis_conic(p['c'], p['k'], typ, P, p.get('dy', 0), p.get('dx', 0), n, R)
+        return Surface.off_axis_conic(c=p['c'], k=p['k'], typ=typ, P=P, dy=p.get('dy', 0), dx=p.get('dx', 0), n=n, R=R)
+    ffp = qtype_ffp(p['cm0'], p['ams'], p['bms'], p['nr'], p['c'], p['k'], p.get('dx', 0), p.get('dy', 0))
+    return Surface(typ, P, n, ffp, R) if positional else Surface(typ=typ, P=P, n=n, FFp=ffp, R=R)
+
+
+def _P_forms(P_arg):
+    """The same vertex position written in the other accepted forms."""
+    out = {}
+    if not hasattr(P_arg, '__iter__'):
+        z = float(P_arg)
+        out = {'[z]': [z], '[0,0,z]': [0.0, 0.0, z], 'numpy-float64': np.float64(z), 'tuple': (z,), 'ndarray': np.array([0.0, 0.0, z])}
+        if z == int(z):
+            out['python-int'] = int(z)
+        return out
+    v = [float(t) for t in P_arg]
+    full = [0.0] * (3 - len(v)) + v
+    out = {'tuple': tuple(v), 'ndarray': np.array(v), 'list-of-numpy-scalars': [np.float64(t) for t in v], 'read-only-ndarray': None,
+           'padded-[x,y,z]': full}
+    ro = np.array(v)
+    ro.setflags(write=False)
+    out['read-only-ndarray'] = ro
+    return out
+
+
+def _R_forms(R_arg):
+    if R_arg is None:
+        return {}
+    if isinstance(R_arg, tuple):
+        ang = list(R_arg)
+        pad = tuple(ang + [0.0] * (3 - len(ang)))
+        out = {'list': list(ang), 'padded-3-angles': pad, 'tuple-of-numpy-scalars': tuple(np.float64(a) for a in ang)}
+        return out
+    M = np.asarray(R_arg, dtype=float)
+    ro = M.copy()
+    ro.setflags(write=False)
+    return {'F-order': np.asfortranarray(M), 'read-only': ro, 'transposed-view': np.ascontiguousarray(M.T).T}
+
+
+def _same_trace(ctx, monitor, res, base, key, what, desc, sc, tol=1e-12, vertex=None):
+    """Histories of one trace against the canonical trace of the same rays.  `vertex(points) -> bool mask` marks hits at the
+    local vertex of the surface: there a ray may be lost in one form and not in the other (the r = 0 singularity of the ledger is
+    decided by round-off), so a NaN on one side only is excluded and counted for such rays and a violation for every other ray."""
+    ph, sh = np.asarray(res[0], dtype=float), np.asarray(res[1], dtype=float)
+    bph, bsh = base
+    if ph.shape != bph.shape and ph.size == bph.size:
+        ph, sh = ph.reshape(bph.shape), sh.reshape(bsh.shape)
+    if ph.shape != bph.shape:
+        ctx.observe(monitor)
+        ctx.violation(key + '/shape', what + f': histories of shape {ph.shape}, expected {bph.shape}', desc)
+        return False
+    p2, s2, b2, t2 = (v.reshape(v.shape[0], -1, 3) for v in (ph, sh, bph, bsh))
+    fin_f = np.isfinite(p2).all((0, 2)) & np.isfinite(s2).all((0, 2))
+    fin_b = np.isfinite(b2).all((0, 2)) & np.isfinite(t2).all((0, 2))
+    both = fin_f & fin_b
+    one = fin_f ^ fin_b
+    if one.any():
+        at_vertex = np.zeros(one.shape, dtype=bool)
+        if vertex is not None:
+            hit = np.where(fin_b[:, None], b2[-1], p2[-1])
+            at_vertex = vertex(hit)
+        if (one & ~at_vertex).any():
+            ctx.observe(monitor)
+            ctx.violation(key + '/ray-lost-in-one-form-only', what + ' (a ray is traced in one form and NaN in the other)', desc,
+                          rows=[int(i) for i in np.nonzero(one & ~at_vertex)[0][:8]])
+            return False
+        ctx.skip('argument forms: ray through the local vertex lost in one form only (r = 0 singularity, decided by round-off)', int(one.sum()))
+    if not both.any():
+        return True
+    ok = ctx.close(monitor, p2[:, both], b2[:, both], key + '/positions-differ', what + ' (intersection points)', desc, rtol=0, atol=tol * sc)
+    ok &= ctx.close(monitor, s2[:, both], t2[:, both], key + '/directions-differ', what + ' (directions)', desc, rtol=0, atol=tol)
+    return ok
+
+
+def ray_forms_case(ctx, idx, family, way, form):
+    from prysm.x.raytracing import spencer_and_murty as sm
+    rng = ctx.rng('forms', idx)
+    n_amb = 1.0 if way != 'refr-out' else float(np.round(rng.uniform(1.45, 1.9), 4))
+    spec = make_spec(rng, family, way, form, n_amb)
+    spec.wvl = wvl = WAVELENGTHS[idx % len(WAVELENGTHS)]
+    desc = {'wl': 'argument-forms', 'surface': spec.describe(), 'n_ambient': n_amb, 'wvl': wvl, 'sub': idx,
+            'class': f'forms|{family}|{way}|{form}'}
+    if lib_call(ctx, f'C19/build/{family}', desc, build, spec) is _RAISED or not check_R(ctx, spec, desc):
+        ctx.case(desc)
+        return
+    sag = lib_sag(spec)
+    Pl, Sl, C, _ = local_bundle(rng, spec, 3, 10, sag)
+    P, S = rp.to_global(Pl, Sl, spec.V, spec.R)
+    P0, S0 = P.copy(), S.copy()
+    gkey = 'C19/raytrace/form'
+    base = lib_call(ctx, gkey, desc, sm.raytrace, [spec.surf], P, S, wvl, n_ambient=n_amb)
+    if base is _RAISED:
+        ctx.case(desc)
+        return
+    bph, bsh = np.array(base[0], dtype=float), np.array(base[1], dtype=float)
+    sc = max(1.0, float(np.max(np.abs(P0))), float(np.max(np.abs(spec.V))))
+    decided = check_pass(ctx, spec, P0, S0, bph[1], bsh[1], n_amb, desc)
+
+    def vertex(points):
+        with np.errstate(invalid='ignore'):
+            loc = rp.to_local(np.where(np.isfinite(points), points, 1e300), np.zeros_like(points), spec.V, spec.R)[0]
+            return np.hypot(loc[:, 0], loc[:, 1]) <= 1e-6 * max(spec.a, 1.0)
+
+    def trace(label, Pa, Sa, surfaces=None, w=wvl, tol=1e-12, rows=None, **kw):
+        d2 = dict(desc, form=label)
+        k = f'C19/raytrace/form:{label}'
+        kw.setdefault('n_ambient', n_amb)
+        res = lib_call(ctx, k, d2, sm.raytrace, surfaces if surfaces is not None else [spec.surf], Pa, Sa, w, **kw)
+        if res is _RAISED:
+            return None
+        b = (bph, bsh) if rows is None else (bph[:, rows], bsh[:, rows])
+        _same_trace(ctx, 'form.rays', res, b, k, f'raytrace with {label} differs from the trace of the same rays as float64 (N,3) ndarrays',
+                    d2, sc, tol, vertex=vertex)
+        return res
+
+    # ---- containers and memory layouts of the same float64 rays
+    for f in RAY_CONTAINER_FORMS:
+        Pa = {'list': P0.tolist(), 'tuple-of-rows': _ray_form(P0, 'tuple-of-rows'), 'P-list+S-ndarray': P0.tolist(), 'P-ndarray+S-list': P0.copy(),
+              'F-order': np.asfortranarray(P0), 'read-only': _ray_form(P0, 'read-only')}[f]
+        Sa = {'list': S0.tolist(), 'tuple-of-rows': _ray_form(S0, 'tuple-of-rows'), 'P-list+S-ndarray': S0.copy(), 'P-ndarray+S-list': S0.tolist(),
+              'F-order': np.asfortranarray(S0), 'read-only': _ray_form(S0, 'read-only')}[f]
+        trace(f'rays={f}', Pa, Sa)
+    # ---- dtype kinds (single-precision thresholds as soon as one of the arrays is float32; judged by the pass oracle too)
+    for f in RAY_DTYPE_FORMS:
+        pd, sd = (np.float32 if 'P-float32' in f else np.float64), (np.float32 if 'S-float32' in f else np.float64)
+        Pa, Sa = P0.astype(pd), S0.astype(sd)
+        d2 = dict(desc, form=f)
+        t = Tagged(ctx, f'/form:rays={f}')
+        with tolerances(TOL32, f'/form:rays={f}'):
+            global CTX
+            old = CTX
+            CTX = t
+            try:
+                res = lib_call(t, 'C19/raytrace', d2, sm.raytrace, [spec.surf], Pa, Sa, wvl, n_ambient=n_amb)
+                if res is not _RAISED:
+                    ph, sh = np.asarray(res[0], dtype=float), np.asarray(res[1], dtype=float)
+                    ctx.observe('form.ray-dtypes')
+                    check_pass(t, spec, Pa.astype(float), Sa.astype(float), ph[1], sh[1], n_amb, d2)
+            finally:
+                CTX = old
+    # ---- one ray as (3,), as a list of three floats, as (1,3); batches of 2 and 3 rows: row i is traced like row i of the batch
+    pick = sorted(set([0, len(P0) - 1] + [int(v) for v in rng.integers(0, len(P0), 3)]))
+    for i in pick:
+        trace('rays=single-(3,)', P0[i].copy(), S0[i].copy(), rows=i)
+        trace('rays=single-list-of-3', [float(v) for v in P0[i]], [float(v) for v in S0[i]], rows=i)
+        trace('rays=batch-of-1', P0[i:i + 1].copy(), S0[i:i + 1].copy(), rows=slice(i, i + 1))
+    for nb in (2, 3):
+        rows = [int(v) for v in rng.choice(len(P0), size=nb, replace=False)]
+        trace(f'rays=batch-of-{nb}', P0[rows].copy(), S0[rows].copy(), rows=rows)
+    # ---- trace arguments: surfaces container, wvl / n_ambient forms, keyword / positional, omitted default
+    trace('surfaces=tuple', P0, S0, surfaces=(spec.surf,))
+    arr = np.empty(1, dtype=object)
+    arr[0] = spec.surf
+    trace('surfaces=object-ndarray', P0, S0, surfaces=arr)
+    for f in WVL_FORMS:
+        w = {'numpy-float64': np.float64(wvl), '0d-float64': np.array(wvl), 'numpy-float32': np.float32(wvl)}[f]
+        # a float32 wavelength makes the harness's own index callable n(wvl) compute in single precision (index off by ~1e-7, amplified
+        # near the critical angle): single-precision threshold for that form
+        trace(f'wvl={f}', P0, S0, w=w, tol=TOL32['TOL_LAW'] if 'float32' in f else 1e-12)
+    for f, na in (('numpy-float64', np.float64(n_amb)), ('0d-float64', np.array(n_amb))) + ((('python-int', 1),) if n_amb == 1.0 else ()):
+        trace(f'n_ambient={f}', P0, S0, n_ambient=na)
+    d2 = dict(desc, form='call-syntax')
+    res = lib_call(ctx, 'C19/raytrace/form:call=all-keywords', d2, lambda: sm.raytrace(surfaces=[spec.surf], P=P0, S=S0, wvl=wvl, n_ambient=n_amb))
+    if res is not _RAISED:
+        _same_trace(ctx, 'form.call-syntax', res, (bph, bsh), 'C19/raytrace/form:call=all-keywords',
+                    'raytrace with every argument by keyword differs from the usual call', d2, sc, vertex=vertex)
+    res = lib_call(ctx, 'C19/raytrace/form:call=all-positional', d2, sm.raytrace, [spec.surf], P0, S0, wvl, n_amb)
+    if res is not _RAISED:
+        _same_trace(ctx, 'form.call-syntax', res, (bph, bsh), 'C19/raytrace/form:call=all-positional',
+                    'raytrace with n_ambient passed positionally differs from the keyword form', d2, sc, vertex=vertex)
+    if n_amb == 1.0:
+        # n_ambient omitted == 1 (documented default), also right after a trace in another medium
+        lib_call(ctx, gkey, d2, sm.raytrace, [spec.surf], P0, S0, wvl, n_ambient=1.33)
+        res = lib_call(ctx, 'C19/raytrace/form:n_ambient=omitted', d2, sm.raytrace, [spec.surf], P0, S0, wvl)
+        if res is not _RAISED:
+            _same_trace(ctx, 'form.call-syntax', res, (bph, bsh), 'C19/raytrace/form:n_ambient=omitted',
+                        'raytrace without n_ambient differs from n_ambient=1 (the documented default) after a trace with n_ambient=1.33', d2, sc, vertex=vertex)
+    # ---- the step routines called directly: a single (3,) ray, a (1,3) batch and rows of a batch are the same rays
+    Pl0, Sl0 = rp.to_local(P0, S0, spec.V, spec.R)
+    Pl0, Sl0 = np.ascontiguousarray(Pl0), np.ascontiguousarray(Sl0)
+    d2 = dict(desc, form='direct-single-vs-batch')
+    full = lib_call(ctx, 'C19/intersect/form', d2, sm.intersect, Pl0, Sl0, spec.surf.sag_normal)
+    if full is not _RAISED:
+        Pj, rn = np.asarray(full[0], dtype=float), np.asarray(full[1], dtype=float)
+        fin = np.isfinite(Pj).all(1) & np.isfinite(rn).all(1)
+        rows = [int(i) for i in np.nonzero(fin)[0][:4]]
+        na, nb = (1.0, 1.5) if idx % 2 else (1.6, 1.2)
+        if rows:
+            bat_refl = lib_call(ctx, 'C19/reflect/form', d2, sm.reflect, Sl0[fin], rn[fin])
+            bat_refr = lib_call(ctx, 'C19/refract/form', d2, sm.refract, na, nb, Sl0[fin], rn[fin])
+            pos = {i: k for k, i in enumerate(np.nonzero(fin)[0])}
+            for i in rows:
+                for lab, Pa, Sa, ra in (('single-(3,)', Pl0[i].copy(), Sl0[i].copy(), rn[i].copy()),
+                                        ('batch-of-1', Pl0[i:i + 1].copy(), Sl0[i:i + 1].copy(), rn[i:i + 1].copy())):
+                    one = lib_call(ctx, f'C19/intersect/form:rays={lab}', d2, sm.intersect, Pa, Sa, spec.surf.sag_normal)
+                    if one is not _RAISED:
+                        ctx.close('form.direct', np.asarray(one[0], dtype=float).reshape(-1), Pj[i], f'C19/intersect/form:rays={lab}',
+                                  f'intersect of one ray given as {lab} differs from the same ray as a row of a batch', d2, rtol=0, atol=1e-12 * sc)
+                        ctx.close('form.direct', np.asarray(one[1], dtype=float).reshape(-1), rn[i], f'C19/intersect/form:rays={lab}/normal',
+                                  f'intersect of one ray given as {lab} returns another normal than for the same ray as a row of a batch', d2,
+                                  rtol=0, atol=1e-10 * max(1.0, float(np.max(np.abs(rn[i])))))
+                    if bat_refl is not _RAISED:
+                        one = lib_call(ctx, f'C19/reflect/form:rays={lab}', d2, sm.reflect, Sa, ra)
+                        if one is not _RAISED:
+                            ctx.close('form.direct', np.asarray(one, dtype=float).reshape(-1), np.asarray(bat_refl)[pos[i]],
+                                      f'C19/reflect/form:rays={lab}', f'reflect of one ray given as {lab} differs from the same ray as a row of a '
+                                      'batch', d2, rtol=0, atol=1e-12)
+                    if bat_refr is not _RAISED:
+                        one = lib_call(ctx, f'C19/refract/form:rays={lab}', d2, sm.refract, na, nb, Sa, ra)
+                        if one is not _RAISED:
+                            ctx.close('form.direct', np.asarray(one, dtype=float).reshape(-1), np.asarray(bat_refr)[pos[i]],
+                                      f'C19/refract/form:rays={lab}', f'refract of one ray given as {lab} differs from the same ray as a row of a '
+                                      'batch', d2, rtol=0, atol=1e-12)
+                for lab, fn in (('to_local', sm.transform_to_local_coords), ('to_global', sm.transform_to_global_coords)):
+                    Rm = spec.R
+                    bat = lib_call(ctx, f'C19/rigid/{lab}/form', d2, fn, P0, spec.V, S0, Rm)
+                    one = lib_call(ctx, f'C19/rigid/{lab}/form', d2, fn, P0[i].copy(), spec.V, S0[i].copy(), Rm)
+                    if bat is not _RAISED and one is not _RAISED:
+                        ctx.close('form.direct', np.asarray(one[0], dtype=float).reshape(-1), np.asarray(bat[0], dtype=float)[i],
+                                  f'C19/rigid/{lab}/form:rays=single-(3,)', f'transform_{lab}_coords of one (3,) point differs from the same point as '
+                                  'a row of a batch', d2, rtol=0, atol=1e-12 * sc)
+                        ctx.close('form.direct', np.asarray(one[1], dtype=float).reshape(-1), np.asarray(bat[1], dtype=float)[i],
+                                  f'C19/rigid/{lab}/form:rays=single-(3,)', f'transform_{lab}_coords of one (3,) direction differs from the same '
+                                  'direction as a row of a batch', d2, rtol=0, atol=1e-12)
+    # ---- constructor argument forms: a fresh Surface built from another form of the same argument traces the same
+    variants = [(f'typ={f}', dict(typ=f)) for f in TYP_FORMS[spec.typ]]
+    variants += [(f'P={f}', dict(P=v)) for f, v in _P_forms(spec.P_arg).items()]
+    variants += [(f'R={f}', dict(R=v)) for f, v in _R_forms(spec.R_arg).items()]
+    variants += [('call=all-positional', dict(positional=True))]
+    if isinstance(spec.R_arg, tuple):
+        from prysm.coordinates import make_rotation_matrix
+        variants.append(('R=make_rotation_matrix(angles)', dict(R=make_rotation_matrix(spec.R_arg))))
+    for label, kw in variants:
+        d2 = dict(desc, form=label)
+        k = f'C19/surface/form:{label}'
+        s2 = lib_call(ctx, k, d2, _build_variant, spec, **kw)
+        if s2 is _RAISED:
+            continue
+        res = lib_call(ctx, k, d2, sm.raytrace, [s2], P0, S0, wvl, n_ambient=n_amb)
+        if res is not _RAISED:
+            _same_trace(ctx, 'form.surface-args', res, (bph, bsh), k, f'a Surface built with {label} traces differently from the one built '
+                        'with the canonical form of the same argument', d2, sc, vertex=vertex)
+    ctx.case(desc, nontrivial=decided > 0)
+
+
+# ---- eval (non-bending) surfaces at every position of a prescription, with and without tilt --------------------------------
+EVAL_POSITIONS = ['first', 'middle', 'last']
+EVAL_FRAMES = ['none', 'decentred', 'tilted-angles', 'tilted-matrix']
+
+
+def eval_case(ctx, idx, pos, frame, family):
+    """A prescription of refracting surfaces along +z with one eval surface at `pos`: every pass is judged by the pass oracle
+    (eval: direction unchanged, hit on ray and surface), and the surfaces after the eval surface must receive exactly the
+    rays they receive when the eval surface is left out."""
+    from prysm.x.raytracing import spencer_and_murty as sm
+    rng = ctx.rng('eval', idx)
+    nreal = 2 if pos != 'middle' or idx % 2 else 3
+    wvl = WAVELENGTHS[idx % len(WAVELENGTHS)]
+    n_amb = 1.0
+    z = float(np.round(rng.uniform(5, 20), 2))
+    specs, ns, n_cur = [], [], n_amb
+    order = ['real'] * nreal
+    order.insert({'first': 0, 'middle': 1 + (idx // 2) % (nreal - 1), 'last': nreal}[pos], 'eval')
+    for kind in order:
+        fam = family if kind == 'eval' else ['plane', 'conic', 'conic', 'off-axis-conic'][int(rng.integers(4))]
+        shape = rand_shape(rng, fam)
+        shape['a'] = max(shape['a'], 12.0) if fam == 'plane' else shape['a']
+        fr = frame if kind == 'eval' else ['none', 'decentred', 'tilted-matrix'][int(rng.integers(3))]
+        V = [float(np.round(rng.uniform(-1, 1), 3)) if fr != 'none' else 0.0, float(np.round(rng.uniform(-1, 1), 3)) if fr != 'none' else 0.0, z]
+        ang = tuple(float(v) for v in np.round(rng.uniform(-8, 8, 3), 2))
+        R_arg = None if fr in ('none', 'decentred') else (ang if fr == 'tilted-angles' else rp.rotation_from_angles(*ang))
+        P_arg = z if fr == 'none' else V
+        if kind == 'eval':
+            typ, n_after = 'eval', None
+        else:
+            typ = 'refr'
+            n_after = pick_index(rng, n_cur, 'in' if n_cur < 1.3 else 'out')
+        sp = Spec(fam, typ, P_arg, R_arg, n_after, **shape)
+        sp.wvl = wvl
+        if lib_call(ctx, f'C19/build/{fam}', {'surface': sp.describe()}, build, sp) is _RAISED:
+            return
+        specs.append(sp)
+        ns.append(n_cur)
+        if typ == 'refr':
+            n_cur = n_after
+        z += float(np.round(rng.uniform(8, 25), 2))
+    je = order.index('eval')
+    a0 = min(s.a for s in specs)
+    nray = ctx.pick(24, 60)
+    r = 0.3 * a0 * np.sqrt(rng.uniform(0, 1, nray)); th = rng.uniform(0, 2 * np.pi, nray)
+    r[0] = 0.0
+    P = np.stack([r * np.cos(th), r * np.sin(th), np.full(nray, -float(np.round(rng.uniform(5, 30))))], 1)
+    tilt = np.radians(rng.uniform(0, 6, nray)); az = rng.uniform(0, 2 * np.pi, nray)
+    tilt[0] = 0.0
+    S = np.stack([np.sin(tilt) * np.cos(az), np.sin(tilt) * np.sin(az), np.cos(tilt)], 1)
+    desc = {'wl': 'eval-in-prescription', 'eval_position': pos, 'eval_frame': frame, 'surfaces': [s.describe() for s in specs], 'wvl': wvl,
+            'sub': idx, 'class': f'eval|{pos}|{frame}|{family}|{len(specs)}-surfaces'}
+    for s_ in specs:
+        check_R(ctx, s_, desc)
+    gkey = f'C19/raytrace/eval-surface/{pos}/{"R=None" if specs[je].R_arg is None else "R"}'
+    res = lib_call(ctx, gkey, desc, sm.raytrace, [s_.surf for s_ in specs], P, S, wvl, n_ambient=n_amb)
+    if res is _RAISED:
+        ctx.case(desc)
+        return
+    ph, sh = np.asarray(res[0], dtype=float), np.asarray(res[1], dtype=float)
+    decided = 0
+    for j, s_ in enumerate(specs):
+        dj = check_pass(ctx, s_, ph[j], sh[j], ph[j + 1], sh[j + 1], ns[j], desc, j=j)
+        decided += dj
+        if j == je:
+            ctx.observe('eval.pass', dj)
+    # the same prescription without the eval surface: everything downstream is unchanged
+    rest = [s_.surf for j, s_ in enumerate(specs) if j != je]
+    res2 = lib_call(ctx, gkey, desc, sm.raytrace, rest, P, S, wvl, n_ambient=n_amb)
+    if res2 is not _RAISED:
+        ph2, sh2 = np.asarray(res2[0], dtype=float), np.asarray(res2[1], dtype=float)
+        keep = [j for j in range(len(specs) + 1) if j != je + 1]
+        fin = np.isfinite(ph[je + 1]).all(1) & np.isfinite(ph2).all((0, 2)) & np.isfinite(ph).all((0, 2))
+        ctx.skip('eval: ray lost somewhere in the prescription (downstream comparison not made)', int((~fin).sum()))
+        if fin.any():
+            sc = max(1.0, float(np.max(np.abs(ph2[:, fin]))))
+            fr_cls = 'R=None' if specs[je].R_arg is None else 'R'
+            ctx.close('eval.transparent', ph[keep][:, fin], ph2[:, fin], f'C19/eval/not-transparent/{pos}/{fr_cls}/positions',
+                      'inserting an eval (non-bending) surface changes where the rays hit the other surfaces', desc, rtol=0, atol=1e-9 * sc)
+            ctx.close('eval.transparent', sh[keep][:, fin], sh2[:, fin], f'C19/eval/not-transparent/{pos}/{fr_cls}/directions',
+                      'inserting an eval (non-bending) surface changes the directions at the other surfaces', desc, rtol=0, atol=1e-9)
+    ctx.case(desc, nontrivial=decided > 0)
+
+
+# ---- batches that mix hitting, missing and late-NaN rays ----------------------------------------------------------------
+MISS_KINDS = ['outside-sag-domain', 'leaves-sag-domain', 'parallel-to-vertex-plane', 'nan-input']
+
+
+def mixed_batch_case(ctx, idx, family, way):
+    """Hitting rays interleaved with rays that cannot be traced (start outside the sag domain, walk out of it during the
+    iteration, run parallel to the vertex plane, arrive as NaN): every hitting ray must come out as it does when traced
+    alone ('there is no reason all rows of P and S must belong to the same ray bundle'), and the batch is judged pass by pass."""
+    from prysm.x.raytracing import spencer_and_murty as sm
+    rng = ctx.rng('mixed', idx)
+    n_amb = 1.0 if way != 'refr-out' else float(np.round(rng.uniform(1.45, 1.9), 4))
+    regime = 'strong-curvature' if family in ('conic', 'off-axis-conic') and idx % 2 == 0 else None
+    spec = make_spec(rng, family, way, FORMS[idx % 4], n_amb, regime=regime)
+    if family == 'conic' and idx % 3 == 0:
+        spec.par['k'] = 0.0            # a sphere: the sag is not real beyond r = |R|
+    desc = {'wl': 'mixed-batch', 'surface': spec.describe(), 'n_ambient': n_amb, 'sub': idx, 'class': f'mixed-batch|{family}|{way}'}
+    if lib_call(ctx, f'C19/build/{family}', desc, build, spec) is _RAISED or not check_R(ctx, spec, desc):
+        ctx.case(desc)
+        return
+    sag = lib_sag(spec)
+    nh = [1, 2, 3, 8, 20][idx % 5]
+    Pl, Sl, C, _ = local_bundle(rng, spec, 2, 12, sag)
+    sel = rng.choice(len(Pl), size=min(nh, len(Pl)), replace=False)
+    Pl, Sl = Pl[sel], Sl[sel]
+    # the rays that cannot be traced
+    c = spec.par.get('c', 0.0)
+    k = spec.par.get('k', 0.0)
+    Rdom = (1.0 / abs(c) / math.sqrt(1.0 + k)) if c and (1.0 + k) > 1e-9 else None
+    bad_P, bad_S, kinds = [], [], []
+    nm = [1, 2, 5][idx % 3]
+    for q in range(nm):
+        kind = MISS_KINDS[(idx + q) % len(MISS_KINDS)]
+        th = float(rng.uniform(0, 2 * np.pi))
+        if kind == 'outside-sag-domain' and Rdom is not None and not family.startswith('off'):
+            rr_ = Rdom * float(rng.uniform(1.2, 2.0))
+            bad_P.append([rr_ * math.cos(th), rr_ * math.sin(th), -float(rng.uniform(5, 30))]); bad_S.append([0.0, 0.0, 1.0])
+        elif kind == 'leaves-sag-domain' and Rdom is not None and not family.startswith('off') and c > 0:
+            # crosses the vertex plane inside the domain heading outwards so steeply that it leaves the domain before it could
+            # reach the (concave-up) surface
+            rr_ = Rdom * float(rng.uniform(0.9, 0.98))
+            el = math.radians(float(rng.uniform(70, 80)))
+            d = np.array([math.sin(el) * math.cos(th), math.sin(el) * math.sin(th), math.cos(el)])
+            p0 = np.array([rr_ * math.cos(th), rr_ * math.sin(th), 0.0])
+            bad_P.append(list(p0 - 0.1 * Rdom * d)); bad_S.append(list(d))
+        elif kind == 'parallel-to-vertex-plane':
+            bad_P.append([-50.0, float(rng.uniform(-1, 1)), float(rng.uniform(1, 5)) * (1 if c >= 0 else -1) + 1e3 * (0 if family != 'plane' else 1)])
+            bad_S.append([1.0, 0.0, 0.0])
+        else:
+            bad_P.append([np.nan, np.nan, np.nan]); bad_S.append([0.0, 0.0, 1.0]); kind = 'nan-input'
+        kinds.append(kind)
+    desc['untraceable'] = kinds
+    desc['n_hitting'] = int(len(Pl))
+    Pm, Sm = np.array(bad_P, dtype=float).reshape(-1, 3), np.array(bad_S, dtype=float).reshape(-1, 3)
+    allP = np.concatenate([Pl, Pm]); allS = np.concatenate([Sl, Sm])
+    perm = rng.permutation(len(allP))
+    hit_rows = np.nonzero(perm < len(Pl))[0]
+    P, S = rp.to_global(allP[perm], allS[perm], spec.V, spec.R)
+    gkey = 'C19/raytrace/mixed-batch'
+    with np.errstate(all='ignore'):
+        res = lib_call(ctx, gkey, desc, sm.raytrace, [spec.surf], P.copy(), S.copy(), WVL, n_ambient=n_amb)
+    if res is _RAISED:
+        ctx.case(desc)
+        return
+    ph, sh = np.asarray(res[0], dtype=float), np.asarray(res[1], dtype=float)
+    decided = check_pass(ctx, spec, P, S, ph[1], sh[1], n_amb, desc)
+    sc = max(1.0, float(np.nanmax(np.abs(P[hit_rows]))), float(np.max(np.abs(spec.V))))
+    for i in hit_rows:
+        solo = lib_call(ctx, gkey, desc, sm.raytrace, [spec.surf], P[i:i + 1].copy(), S[i:i + 1].copy(), WVL, n_ambient=n_amb)
+        if solo is _RAISED:
+            continue
+        sp_, ss_ = np.asarray(solo[0], dtype=float)[1, 0], np.asarray(solo[1], dtype=float)[1, 0]
+        if not (np.isfinite(sp_).all() and np.isfinite(ss_).all()):
+            ctx.skip('mixed batch: the ray is lost when traced alone too (decided by the pass oracle, not by this law)')
+            continue
+        ctx.close('batch.vs-solo', ph[1, i], sp_, 'C19/raytrace/mixed-batch/hitting-ray-differs-from-solo-trace/position',
+                  'a ray that hits is traced to another point (or lost) when untraceable rays share its batch', desc, rtol=0, atol=1e-9 * sc,
+                  row=int(i))
+        ctx.close('batch.vs-solo', sh[1, i], ss_, 'C19/raytrace/mixed-batch/hitting-ray-differs-from-solo-trace/direction',
+                  'a ray that hits leaves in another direction (or is lost) when untraceable rays share its batch', desc, rtol=0, atol=1e-9,
+                  row=int(i))
+    ctx.case(desc, nontrivial=decided > 0)
+
+
+# ================================================================================================ class F: foreign traffic
+FOREIGN_KINDS = ['rotation-matrices-edited-in-place', 'qpoly-other-orders', 'precision-32-consumers', 'polar-grids-edited']
+
+
+def foreign_case(ctx, idx, kind, family):
+    """Other consumers of the helpers the ray tracer shares with the rest of the library (make_rotation_matrix, cart_to_polar,
+    the Q-polynomial recurrences, config.precision) run first with hostile arguments; then a surface is built and traced."""
+    from prysm import coordinates
+    from ..util import precision
+    rng = ctx.rng('foreign', idx)
+    way = WAYS[idx % 3]
+    n_amb = 1.0 if way != 'refr-out' else float(np.round(rng.uniform(1.45, 1.9), 4))
+    form = 'angles' if kind == 'rotation-matrices-edited-in-place' else FORMS[idx % 4]
+    spec = make_spec(rng, family, way, form, n_amb)
+    desc = {'wl': 'foreign', 'prelude': kind, 'surface': spec.describe(), 'n_ambient': n_amb, 'sub': idx,
+            'class': f'foreign|{kind}|{family}|{way}'}
+    ctx.observe('foreign.cases')
+    try:
+        with np.errstate(all='ignore'):
+            if kind == 'rotation-matrices-edited-in-place':
+                ang = spec.R_arg
+                for a in (ang, tuple(ang), list(ang)):
+                    M = coordinates.make_rotation_matrix(a)
+                    M[...] = 7.0
+                    M = coordinates.make_rotation_matrix(tuple(np.radians(a)), radians=True)
+                    M *= 0.0
+                coordinates.promote_3d_transformation_to_homography(coordinates.make_rotation_matrix(ang))[...] = 3.0
+                first = make_spec(ctx.rng('foreign-first', idx), 'plane', 'refl', 'none', 1.0)
+                first.R_arg = ang
+                build(first)
+                if first.surf.R is not None and getattr(first.surf.R, 'flags', None) is not None and first.surf.R.flags.writeable:
+                    first.surf.R[...] = 0.5         # the caller edits the matrix of ITS surface; another surface with the same angles follows
+            elif kind == 'qpoly-other-orders':
+                from prysm.polynomials import Q2d_seq, Qbfs_seq, Qcon_seq
+                from prysm.x.raytracing.surfaces import Q2d_and_der
+                r_ = np.linspace(0, 1, 17); t_ = np.linspace(0, 2 * np.pi, 17)
+                list(Qbfs_seq(range(0, 12), r_)); list(Qcon_seq(range(0, 9), r_))
+                for m in list(Q2d_seq([(n_, m_) for n_ in range(6) for m_ in (-3, 0, 2, 5)], r_, t_)):
+                    m *= 0.0
+                Q2d_and_der([0.1] * 9, [[0.01] * 7] * 5, [[0.02] * 7] * 5, np.linspace(-1, 1, 9)[:, None], np.linspace(-1, 1, 9)[:, None], 2.0, 0.05, -1.0)
+            elif kind == 'precision-32-consumers':
+                with precision(32):
+                    other = make_spec(ctx.rng('foreign-first', idx), family, way, form, n_amb)
+                    build(other)
+                    from prysm.x.raytracing import spencer_and_murty as sm
+                    Pl, Sl, _, _ = local_bundle(ctx.rng('foreign-rays', idx), other, 2, 6, lib_sag(other))
+                    Pg, Sg = rp.to_global(Pl, Sl, other.V, other.R)
+                    sm.raytrace([other.surf], Pg.astype(np.float32), Sg.astype(np.float32), WVL, n_ambient=n_amb)
+                    coordinates.make_rotation_matrix((1.0, 2.0, 3.0))
+            else:
+                x, y = coordinates.make_xy_grid(33, diameter=2 * spec.a)
+                rr_, tt_ = coordinates.cart_to_polar(x, y)
+                rr_[...] = 0.0
+                tt_[...] = 0.0
+                rr_, tt_ = coordinates.cart_to_polar(x[16], y[:, 16], vec_to_grid=False)
+                rr_ *= 0.0
+                xx_, yy_ = coordinates.polar_to_cart(np.hypot(x, y), np.arctan2(y, x))
+                xx_[...] = 1.0
+    except Exception as e:
+        ctx.skip(f'foreign prelude raised {type(e).__name__}')
+    t = Tagged(ctx, f'/after-foreign:{kind}')
+    global CTX
+    old = CTX
+    CTX = t
+    try:
+        with tolerances(TOL64, f'/after-foreign:{kind}'):
+            if lib_call(t, f'C19/build/{family}', desc, build, spec) is _RAISED or not check_R(t, spec, desc):
+                ctx.case(desc)
+                return
+            r1 = _trace_one(t, spec, rng, n_amb, WVL, desc, f'C19/raytrace/{spec.typ}/batch', nrand=12, ngrid=3)
+    finally:
+        CTX = old
+    ctx.case(desc, nontrivial=bool(r1 and r1[4]))
+
+
 def install_monitors(ctx):
     """For vp/pytest_monitors.py: the frame-transform contracts on the repository's own test traffic."""
     global CTX
@@ -1476,6 +2031,34 @@ def _run(ctx):
                 i += 1
                 if ctx.mine(i):
                     repeat_case(ctx, i, f, form_ray)
+    # hardening pass 2: argument forms, eval surfaces inside prescriptions, mixed batches, foreign traffic
+    combos = [(f, w, fo) for f in FAMILIES for w in WAYS for fo in FORMS]
+    for i in range(ctx.pick(60, 1800)):
+        if ctx.mine(i):
+            f, w, fo = combos[(i * 7) % len(combos)] if i >= 15 else (FAMILIES[i % 5], ['refl', 'refr-in', 'eval'][i // 5], FORMS[(i + 1) % 4])
+            ray_forms_case(ctx, i, f, w, fo)
+    i = -1
+    for rep in range(ctx.pick(1, 40)):
+        for pos in EVAL_POSITIONS:
+            for frame in EVAL_FRAMES:
+                for fam in ('plane', 'conic', 'off-axis-conic'):
+                    i += 1
+                    if ctx.mine(i):
+                        eval_case(ctx, i, pos, frame, fam)
+    i = -1
+    for rep in range(ctx.pick(2, 60)):
+        for fam in FAMILIES:
+            for w in WAYS:
+                i += 1
+                if ctx.mine(i):
+                    mixed_batch_case(ctx, i, fam, w)
+    i = -1
+    for rep in range(ctx.pick(1, 30)):
+        for kind in FOREIGN_KINDS:
+            for fam in FAMILIES:
+                i += 1
+                if ctx.mine(i):
+                    foreign_case(ctx, i, kind, fam)
     reps = ctx.pick(8, 150)
     combos = [(f, w, fo) for f in FAMILIES for w in WAYS for fo in FORMS]
     i = -1
